@@ -21,6 +21,16 @@ REPO = os.environ.get('OVC_REPO_ROOT', '/repo')
 OUT = os.environ.get('OVC_OUT_DIR', HERE)
 
 
+def _quiet():
+    import logging
+    import warnings
+    logging.getLogger('omega').setLevel(logging.CRITICAL)
+    logging.getLogger('astutils').setLevel(logging.CRITICAL)
+    logging.getLogger('dd').setLevel(logging.CRITICAL)
+    logging.disable(logging.WARNING)
+    warnings.simplefilter('ignore')
+
+
 def _setup_path():
     if HERE not in sys.path:
         sys.path.insert(0, HERE)
@@ -336,6 +346,7 @@ def main(argv=None):
     r.add_argument('path')
     args = ap.parse_args(argv)
     _setup_path()
+    _quiet()
     seed = int(os.environ.get('VERIF_SEED', '0') or 0)
     if args.cmd == 'check':
         try:
